@@ -21,7 +21,7 @@ REQUIRED = [
     gabor_response_bins gabor_peak gabor_3dB gabor_erb gabor_l2 gabor_bank_filters gabor_neighbours_cross
     gammatone_bank_filters gammatone_neighbours_cross
     gammatone_H_nsq gammatone_peak gammatone_3dB gammatone_l2 gammatone_h_nsq gammatone_l2_integral
-    gammatone_erb_const gammatone_erb_partial gammatone_erb_order1""".split()
+    gammatone_erb_const gammatone_erb_partial gammatone_erb_order1 gammatone_erb""".split()
 ]
 RULE = (
     "configurations = bank class (4) x scale (mel, Bark, linear(low, slope), octave(low)) x sampling rate (1 kHz .. 48 kHz, "
@@ -38,7 +38,8 @@ TRUSTED = [
     "hand-written Python plumbing of Model/BankLayout.lean (tuple comprehensions, zip/slices, the bin write loop with res[-idx], the "
     "period loops, dft_size): tied by Float correspondence through the public API (centers_hz, supports_hz, supports, is_analytic, "
     "get_frequency_response) at 1e-10 relative",
-    "Mathlib's integral_gaussian and Real.integral_rpow_mul_exp_neg_mul_Ioi (kernel-checked)",
+    "Mathlib's integral_gaussian, Real.integral_rpow_mul_exp_neg_mul_Ioi, integral_univ_inv_one_add_sq and "
+    "integral_of_hasDerivAt_of_tendsto (kernel-checked)",
     "complex arithmetic of NumPy in _H (complex power / division / exp) mirrored as pair arithmetic: exercised by correspondence, not verified",
 ]
 ASSUMPTIONS = [
@@ -48,8 +49,10 @@ ASSUMPTIONS = [
     "(Fbank, since its repair, fills the default first and rejects both: fbank_rejects_iff / fbank_accepted_lt)",
     "Fbank / Gabor / gammatone reject a valid high_hz in (floor(rate/2), rate/2] (only for odd / fractional rates) and default to "
     "floor(rate/2), not rate/2: recorded in the histogram (valid_range_rejected), not a violation of the property as stated",
-    "gammatone_erb_partial: the identity integral (1+v^2)^(-n) dv = pi (2n-2)! / (2^(2n-2) ((n-1)!)^2) is a hypothesis of the theorem "
-    "(not in Mathlib); the ERB clause for the gammatone is otherwise checked numerically (5e-3)",
+    "gammatone_erb (every order n >= 1) discharges the hypothesis of gammatone_erb_partial with "
+    "CauchyPow.integral_inv_one_add_sq_pow: integral (1+v^2)^(-n) dv = pi (2n-2)! / (2^(2n-2) ((n-1)!)^2), proved in "
+    "Lemmas/CauchyPow.lean by the reduction formula 2n I(n+1) = (2n-1) I(n) (whole-line FTC on x (1+x^2)^(-n)) and induction; "
+    "the ERB of the *sampled* response is additionally checked numerically (5e-3)",
     "gabor_center_mem_support / gammatone_center_mem_support are proved for the default normalisation; with scale_l2_norm the square-root "
     "radicand must be non-negative (true for every generated case, sampled, counted as hypothesis-gap cases)",
     "'peak with gain 1' is proved for the principal image; the contribution of periodic images for filters whose support spans less "
@@ -64,13 +67,14 @@ LEVEL_TEXT = (
     "triangular / Fbank get_frequency_response raises nothing and equals the documented (sqrt-mel-)triangle at every bin for every "
     "width, half/analytic/real (floor/ceil arithmetic, list-write loop with mirrored writes); Gabor: peak 1, power 10^(-3/10) at both "
     "band edges, ERB = edge spacing (Gaussian integral), unit L2 norm of the impulse response; gammatone: |H|^2 closed form, peak 1, "
-    "power 1/2 at both band edges, c^2 (2n-2)!/(2 alpha)^(2n-1) = 1 with the Gamma integral, alpha_const(erb) closed form. Partial: "
-    "gammatone ERB integral identity assumed; periodic-image and discretisation effects sampled."
+    "power 1/2 at both band edges, c^2 (2n-2)!/(2 alpha)^(2n-1) = 1 with the Gamma integral, alpha_const(erb) closed form, ERB = edge "
+    "spacing for every order (integral of (1+v^2)^(-n) proved by reduction formula + induction). Partial: periodic-image and "
+    "discretisation effects sampled."
 )
 LEVEL_NOTE = (
     "Trusted: Lean kernel, std axioms, the bankconsts/scales/util translators, the hand-written list/loop plumbing tied by Float "
     "correspondence (1e-10) through the public API. Hypotheses: scale domains, low_hz < effective high_hz. Not proved: "
-    "integral of (1+v^2)^(-n) (gammatone ERB), image overlap / discretisation, round-off."
+    "image overlap / discretisation, round-off."
 )
 TECHNIQUE = "Lean 4 proofs over translator-generated constructor/response slices (reals, Mathlib integrals) + Float correspondence + dense-grid oracle"
 
@@ -556,8 +560,6 @@ def oracle_gain(ctx, cfg, bank, edges, cs, sup, r, viol):
                     break
         else:
             erb_hz = float(np.sum(m2)) * (rate / W) / peak2
-            if kind == "gammatone":
-                ctx.gap_cases += 1  # integral identity assumed by gammatone_erb_partial
             if not abs(erb_hz - (eR - eL)) <= 5e-3 * (eR - eL):
                 viol(case, eR - eL, erb_hz, "equivalent rectangular bandwidth equals the spacing of the filter's band edges (numeric integration)",
                      tags=dict(clause="erb", kind=kind))
